@@ -15,6 +15,30 @@ COMMON_NOTE = (
 
 # id -> (technique, level text, level note extra, design ref)
 CLAIMED = {
+    "C01": (
+        "Lean 4 invariant proof (WF preserved by every operation of the model, induction over histories) + differential correspondence + decidable WF check on the implementation's observed state",
+        "Theorems in lean/Nutree/Properties/C01.lean: WF (unique node identities, registry = reachable set, exact data_id index, sibling uniqueness) holds initially and is preserved by every modelled operation, hence after every history; removed nodes are neither reachable nor registered. Tie: every single op on every small forest + random histories on real trees, compared step by step with the compiled model; the Lean-decidable WF conjuncts and the parent/owner links are evaluated on the implementation's own state after every step.",
+        "parent/owner links are derived in the model and observed through the API on the implementation",
+        "DESIGN.md §6 C01",
+    ),
+    "C02": (
+        "Lean 4 theorems (index exactness is a WF conjunct; query exactness corollaries) + differential correspondence + decidable index check on observed state",
+        "IndexExact is a conjunct of the inductive invariant WF; the lookup/clone queries are proved to return exactly the present nodes with the id. Tie: histories biased to set_data on singles and clone groups under hash ids, calc_data_id hooks and explicit ids; all queries for present and past ids after every step.",
+        "",
+        "DESIGN.md §6 C02",
+    ),
+    "C03": (
+        "Lean 4 theorems (SibUnique is a WF conjunct; refusal theorems per route) + collision-directed differential correspondence",
+        "SibUnique is a conjunct of the inductive invariant WF; every route refuses a colliding argument with the uniqueness error and leaves the tree unchanged. Tie: tiny label alphabets make most operations collide; every route is exercised exhaustively on small forests and in random histories.",
+        "",
+        "DESIGN.md §6 C03",
+    ),
+    "C04": (
+        "Lean 4 theorems (effect + frame per operation of the executable specification) + step-by-step differential correspondence of the full observable state",
+        "The Lean model is the executable specification; per-operation effect/frame theorems state where the affected nodes end up and that everything else is untouched. Tie: after every step of exhaustive single ops and random histories the complete observable state of the real tree equals the model's (identity via a bijection).",
+        "",
+        "DESIGN.md §6 C04",
+    ),
     "C06": (
         "Lean 4 theorems (structural induction) about a hand-written executable model + differential correspondence with the implementation",
         "Theorems in lean/Nutree/Properties/C06.lean: the iterator loops equal the declarative orders (pre, post, level/zigzag = structural levels with per-level direction), visit = pruned order cut at the first stop, all signal spellings normalise correctly; proved for all trees, start nodes, callbacks. The tie to /repo is an exhaustive small-scope + random differential run against the compiled model and the specification.",
